@@ -46,6 +46,10 @@ import (
 //	src_unsubscribe_drains    pkg/tracing/tracer.go tracer.Unsubscribe: every select in which the caller offers its request or
 //	                          waits for the acknowledgement also has a clause that receives from the caller's own channel
 //	                          (the subscriber keeps emptying its buffer while it leaves)
+//	src_push_waits_for_the_subscriber
+//	                          pkg/tracing/tracer.go tracer.run: every send to a subscriber (the value variable of a range over
+//	                          the subscribers) is a plain send statement standing directly in the body of that range: not a
+//	                          clause of a select (which could give up), not in a goroutine or a nested block
 //	src_answer_slice_is_fresh gateway_exclusive.go exclusiveGateway.run: every slice that is appended to there is a variable
 //	                          declared inside the case clause in which it is appended to (made anew for every message)
 //	src_wake_is_direct        process_set.go: struct ProcessSet has no map-typed field of channels (no table of listening catch
@@ -72,6 +76,7 @@ type protoFacts struct {
 	UnsubscribeDrains   bool
 	AnswerSliceIsFresh  bool
 	WakeIsDirect        bool
+	PushWaits           bool
 }
 
 func findMethod(f *ast.File, recv, name string) *ast.FuncDecl {
@@ -546,6 +551,45 @@ func protocolFacts(c *factsCtx) (pf protoFacts) {
 		}
 		pf.UnsubscribeDrains = selects > 0 && draining == selects
 	}
+	// --- pkg/tracing/tracer.go run: how a trace is pushed to the subscribers
+	if run := findMethod(c.parse("pkg/tracing/tracer.go"), "tracer", "run"); run == nil {
+		c.fail("protocol facts: tracer.run not found in pkg/tracing/tracer.go")
+	} else {
+		plain, other := 0, 0
+		ast.Inspect(run.Body, func(n ast.Node) bool {
+			rg, ok := n.(*ast.RangeStmt)
+			if !ok || !strings.HasSuffix(nodeText(c.fset, rg.X), "subscribers") {
+				return true
+			}
+			v, ok := rg.Value.(*ast.Ident)
+			if !ok {
+				return true
+			}
+			direct := map[ast.Node]bool{}
+			for _, st := range rg.Body.List {
+				if snd, ok := st.(*ast.SendStmt); ok {
+					direct[snd] = true
+				}
+			}
+			ast.Inspect(rg.Body, func(m ast.Node) bool {
+				if snd, ok := m.(*ast.SendStmt); ok {
+					if id, ok := snd.Chan.(*ast.Ident); ok && id.Name == v.Name {
+						if direct[snd] {
+							plain++
+						} else {
+							other++
+						}
+					}
+				}
+				return true
+			})
+			return true
+		})
+		if plain+other == 0 {
+			c.fail("protocol facts: tracer.run has no send to a subscriber inside a range over the subscribers")
+		}
+		pf.PushWaits = plain > 0 && other == 0
+	}
 	// --- gateway_exclusive.go: the slice a decision is handed over in
 	if run := findMethod(c.parse("gateway_exclusive.go"), "exclusiveGateway", "run"); run == nil {
 		c.fail("protocol facts: exclusiveGateway.run not found")
@@ -712,8 +756,8 @@ func protocolFacts(c *factsCtx) (pf protoFacts) {
 func init() {
 	factGens = append(factGens, func(c *factsCtx) {
 		pf := protocolFacts(c)
-		fmt.Fprintf(&c.out, "(* protocol facts read off the sources (harness/protocol.go) *)\nDefinition src_active_before_arm : bool := %v.\nDefinition src_termchan_capacity : nat := %d.\nDefinition src_termchan_table_kept : bool := %v.\nDefinition src_determination_is_cas : bool := %v.\nDefinition src_subprocess_registers : bool := %v.\nDefinition src_determination_flag_per_activation : bool := %v.\nDefinition src_join_counter_bits : N := %d%%N.\nDefinition src_join_counter_resets : bool := %v.\nDefinition src_setvariable_replaces : bool := %v.\nDefinition src_token_counter_never_set_back : bool := %v.\nDefinition src_monitor_accumulator_is_local : bool := %v.\nDefinition src_probing_key_is_the_id : bool := %v.\nDefinition src_flows_in_reference_order : bool := %v.\nDefinition src_handler_read_only_on_error : bool := %v.\nDefinition src_unsubscribe_drains : bool := %v.\nDefinition src_answer_slice_is_fresh : bool := %v.\nDefinition src_wake_is_direct : bool := %v.\n\n",
-			pf.ActiveBeforeArm, pf.TermChanCapacity, pf.TermChanTableKept, pf.DeterminationIsCAS, pf.SubProcessRegisters, pf.FlagPerActivation, pf.JoinCounterBits, pf.JoinCounterResets, pf.SetVariableReplaces, pf.CounterNeverSetBack, pf.AccumulatorIsLocal, pf.ProbingKeyIsTheId, pf.FlowsInRefOrder, pf.HandlerOnlyOnError, pf.UnsubscribeDrains, pf.AnswerSliceIsFresh, pf.WakeIsDirect)
+		fmt.Fprintf(&c.out, "(* protocol facts read off the sources (harness/protocol.go) *)\nDefinition src_active_before_arm : bool := %v.\nDefinition src_termchan_capacity : nat := %d.\nDefinition src_termchan_table_kept : bool := %v.\nDefinition src_determination_is_cas : bool := %v.\nDefinition src_subprocess_registers : bool := %v.\nDefinition src_determination_flag_per_activation : bool := %v.\nDefinition src_join_counter_bits : N := %d%%N.\nDefinition src_join_counter_resets : bool := %v.\nDefinition src_setvariable_replaces : bool := %v.\nDefinition src_token_counter_never_set_back : bool := %v.\nDefinition src_monitor_accumulator_is_local : bool := %v.\nDefinition src_probing_key_is_the_id : bool := %v.\nDefinition src_flows_in_reference_order : bool := %v.\nDefinition src_handler_read_only_on_error : bool := %v.\nDefinition src_unsubscribe_drains : bool := %v.\nDefinition src_answer_slice_is_fresh : bool := %v.\nDefinition src_wake_is_direct : bool := %v.\nDefinition src_push_waits_for_the_subscriber : bool := %v.\n\n",
+			pf.ActiveBeforeArm, pf.TermChanCapacity, pf.TermChanTableKept, pf.DeterminationIsCAS, pf.SubProcessRegisters, pf.FlagPerActivation, pf.JoinCounterBits, pf.JoinCounterResets, pf.SetVariableReplaces, pf.CounterNeverSetBack, pf.AccumulatorIsLocal, pf.ProbingKeyIsTheId, pf.FlowsInRefOrder, pf.HandlerOnlyOnError, pf.UnsubscribeDrains, pf.AnswerSliceIsFresh, pf.WakeIsDirect, pf.PushWaits)
 	})
 	commands["protocol"] = func(env *Env) {
 		c := &factsCtx{repo: env.Repo, fset: token.NewFileSet()}
